@@ -1,5 +1,7 @@
 """C01 — weighted posterior samples estimate posterior expectations consistently (partial proof + ensemble validation)."""
 import math
+
+import numpy as np
 import random
 
 from common import STDLIB_AXIOMS_REALS, Run, TranslateError
@@ -23,8 +25,8 @@ def validate(run, tier):
     cfgs = [dict(clustering=False), dict(clustering=True, sample="rwm", resample="syst")]
     if tier != "quick":
         cfgs += [dict(clustering=True), dict(clustering=False, sample="rwm"), dict(clustering=False, resample="syst", volume_variation=0.5)]
-    for target in ("interior", "periodic", "edge"):
-        for cfg in cfgs:
+    for target in ("interior", "periodic", "edge", "corr"):
+        for cfg in (cfgs if target != "corr" else [dict(clustering=False), dict(clustering=True)][:1 if tier == "quick" else 2]):
             res = ens.run_ensemble(target, cfg, R, npart, 5000)
             bad = [r for r in res if not r["ok"]]
             what = dict(target=target, cfg=cfg, runs=R, n_particles=npart, seeds="5000..")
@@ -40,6 +42,11 @@ def validate(run, tier):
             # Monte-Carlo error (6 standard errors) plus a finite-particle allowance
             if abs(e_m) > 6 * se_m + 0.03 or abs(e_v) > 6 * se_v + 0.06:
                 run.fail("posterior-estimate-biased", f"over {R} seeds: posterior mean error {e_m:+.3f} (se {se_m:.3f}), variance error {e_v:+.3f} (se {se_v:.3f})", **what)
+            if target == "corr":
+                e_c, se_c = ens.stats([r["cov01"] for r in res], ens.RHO * ens.S ** 2)
+                run.extra["ensemble"][-1].update(cov_err=round(e_c, 4), cov_se=round(se_c, 4))
+                if abs(e_c) > 6 * se_c + 0.06:
+                    run.fail("posterior-estimate-biased", f"correlated target (rho={ens.RHO}): posterior covariance error {e_c:+.3f} (se {se_c:.3f}) over {R} seeds", **what)
             if target == "edge":
                 # coordinate 0 abuts the hard boundary x0 = -5: posterior is a half-Gaussian there
                 true0 = -5.0 + ens.S * math.sqrt(2 / math.pi)
@@ -49,6 +56,39 @@ def validate(run, tier):
                     run.fail("hard-boundary-bias-in-posterior", f"posterior abutting a hard prior boundary: mean of the abutting coordinate is off by {e0:+.3f} (se {se0:.3f}) over {R} seeds",
                              **what)
     run.sample(dict(kind="ensemble", first=run.extra["ensemble"][0]))
+
+
+def exact_history_probe(run, tier):
+    """A history of exact draws with UNEQUAL batch sizes (as after resuming with another n_particles): 2000 draws from the
+    beta=0.25 tempered target and 40000 from the target itself, each with its exact normaliser. The weighted posterior
+    variance and an interval probability must match the truth (deterministic given the fixed generator)."""
+    from tempest.state_manager import StateManager
+    nr = np.random.RandomState(20240)
+    S = ens.S
+    st = StateManager(2)
+    batches = [(0.25, 2000), (1.0, 40000)] if tier == "quick" else [(0.25, 2000), (0.6, 500), (1.0, 40000)]
+    for it, (b, n) in enumerate(batches, 1):
+        x = nr.randn(3 * n, 2) * S / math.sqrt(b)
+        x = x[np.all(np.abs(x) < 5.0, axis=1)][:n]
+        logl = -0.5 * np.sum(x ** 2, axis=1) / S ** 2
+        st.update_current({"u": (x + 5.0) / 10.0, "x": x, "logl": logl, "beta": b, "logz": math.log(2 * math.pi * S ** 2 / b / 100.0), "iter": it})
+        st.commit_current_to_history()
+    logw, _ = st.compute_logw_and_logz(1.0)
+    w = np.exp(logw - np.max(logw))
+    w /= w.sum()
+    xs = st.get_history("x", flat=True)
+    m = np.sum(w * xs[:, 1])
+    var = float(np.sum(w * (xs[:, 1] - m) ** 2))
+    p1 = float(np.sum(w * (np.abs(xs[:, 1]) < S)))
+    ess = 1.0 / float(np.sum(w ** 2))
+    run.case(key=("exact-history", len(batches)), nontrivial=True)
+    run.extra["exact_history"] = dict(batches=batches, var=round(var, 4), true_var=S ** 2, p_within_1sigma=round(p1, 4), ess=round(ess))
+    se_v = S ** 2 * math.sqrt(2.0 / ess)
+    se_p = math.sqrt(0.6827 * 0.3173 / ess)
+    what = dict(probe="exact draws, unequal batch sizes", batches=batches, generator="RandomState(20240)")
+    if abs(var - S ** 2) > 6 * se_v or abs(p1 - 0.6827) > 6 * se_p:
+        run.fail("posterior-estimate-biased", f"history of exact draws with batch sizes {[n for _, n in batches]}: weighted variance {var:.4f} "
+                 f"(truth {S ** 2:.4f}, se {se_v:.4f}), P(|x|<sigma) {p1:.4f} (truth 0.6827, se {se_p:.4f})", **what)
 
 
 def main(tier, seed):
@@ -71,6 +111,7 @@ def main(tier, seed):
     run.prove("Props/C01.v", link_rels=["Link/MIS.v", "Link/Posterior.v", "Link/Schedule.v", "Link/Kernel.v", "Link/Resample.v"],
               allowed_axioms=STDLIB_AXIOMS_REALS)
     try:
+        exact_history_probe(run, tier)
         validate(run, tier)
     except Exception:
         import traceback
